@@ -179,10 +179,11 @@ def childrenOf (i : Inst) : List Nat × Inst :=
     | .error _ => ([], { i with full := a })
   else (Msimple.ids i.kids, i)
 
-inductive SErr | valueRequired | childrenRequired | attrRequired | internal (s : String) | notElement
+inductive SErr | valueRequired | childrenRequired | attrRequired | internal (s : String) | matcher (s : String) | notElement
 def SErr.str : SErr → String
   | .valueRequired => "err:ValueError" | .childrenRequired => "err:childrenRequired"
-  | .attrRequired => "err:attrRequired" | .internal s => "err:internal:" ++ s | .notElement => "unmodelled"
+  | .attrRequired => "err:attrRequired" | .internal s => "err:internal:" ++ s | .matcher s => "err:" ++ s
+  | .notElement => "unmodelled"
 
 /-- `_final_checks` (recursive); returns the updated state (the check rewrites matcher flags) -/
 partial def finalChecks (st : St) (id : Nat) (ic : Bool) : Except SErr Unit × St :=
@@ -203,7 +204,7 @@ partial def finalChecks (st : St) (id : Nat) (ic : Bool) : Except SErr Unit × S
               match r with
               | .ok [] => (.ok (), i')
               | .ok _ => (.error .childrenRequired, i')
-              | .error er => (.error (.internal (dropPrefix er.str 9)), i')
+              | .error er => (.error (.matcher er.str), i')
             else (.ok (), i)
           match r1 with
           | .error x => (.error x, i1)
